@@ -184,7 +184,7 @@ def value_of(it, src, fr):
     paths = [p for p in allp if p.kind == "return"]
     if not paths:
         raise Unsupported(f"ghost definition {src!r} is undefined on this path")
-    if len(paths) == 1 and len([p for p in allp if p.kind != "dead"]) == 1:
+    if len(paths) == 1:
         for f in paths[0].pc[nbase:]:
             it.ctx.assume(f)
         # the path condition is adopted, so the outcomes of pure modular calls made while evaluating are too
@@ -251,8 +251,11 @@ def use_lemma(it, thm, tname, binding, fr):
         lf.locals[k] = value_of(it, src, lf)
     try:
         lf.locals["result"] = it.eval(parse_expr(t1.body), lf)
-    except PyRaise:
-        return
+    except PyRaise as e:
+        if any(c.raises is not None and issubclass(e.exc, c.raises) for c in t1.cases):
+            return
+        # the lemma (proved in this run) says its body does not raise here: this continuation is infeasible
+        raise DeadPath()
     for case in t1.cases:
         if case.raises is not None:
             continue
@@ -332,6 +335,20 @@ def generate(thm, all_contracts=None):
             fr.locals[k] = value_of(it, src, fr)
         for tname, binding in thm.uses:
             use_lemma(it, thm, tname, binding, fr)
+        # proof steps: clauses over the ghost definitions, each an obligation, each available to the later ones
+        # and to the body (a proved equation result-of-pure-call == structured value also rebinds that result)
+        import re as _re
+        for sname, clause in thm.options.get("steps", []):
+            gl = formula(it, clause, fr)
+            ctx.oblige(f"{thm.name}.step.{sname}", gl, {"kind": "step", "clause": clause})
+            ctx.assume(gl)
+            m_ = _re.match(r"^\s*(\w+)\s*==\s*(\w+)\s*$", clause)
+            if m_ and m_.group(1) in fr.locals and m_.group(2) in fr.locals:
+                lhs, rhs = fr.locals[m_.group(1)], fr.locals[m_.group(2)]
+                memo = ctx.ghost.get("pure_calls", [])
+                for i_, (k_, keep_, out_) in enumerate(memo):
+                    if out_[0] == "return" and out_[1] is lhs:
+                        memo[i_] = (k_, keep_, ("return", rhs, out_[2]))
         ctx.pre_len = len(ctx.pc)
         try:
             result = it.eval(body, fr)
@@ -361,6 +378,16 @@ def generate(thm, all_contracts=None):
                             ctx.assume(z3.Implies(w, gl))
                         except DeadPath:
                             break
+                        # a proved equation  <result of a pure modular call> == <structured value>  lets later calls
+                        # with the same arguments return the structured value (same thing, easier terms)
+                        import re as _re
+                        m_ = _re.match(r"^\s*(\w+)\s*==\s*(\w+)\s*$", clause)
+                        if m_ and z3.is_true(z3.simplify(w)) and m_.group(1) in fr.locals and m_.group(2) in fr.locals:
+                            lhs, rhs = fr.locals[m_.group(1)], fr.locals[m_.group(2)]
+                            memo = ctx.ghost.get("pure_calls", [])
+                            for i_, (k_, keep_, out_) in enumerate(memo):
+                                if out_[0] == "return" and out_[1] is lhs:
+                                    memo[i_] = (k_, keep_, ("return", rhs, out_[2]))
             elif outcome[0] == "raise" and exp_raise and issubclass(outcome[2].exc, case.raises):
                 ctx.oblige(f"{thm.name}.{case.name}.raises", z3.Implies(w, z3.BoolVal(True)),
                            {"case": case.name, "kind": "raises-ok"})
@@ -387,6 +414,7 @@ def generate(thm, all_contracts=None):
     for pi, p in enumerate(paths):
         for o in p.obligs:
             o.meta["path"] = pi
+            o.meta["no_concat_law"] = thm.options.get("no_concat_law", False)
             o.meta["inputs"] = p.ctx.inputs
             o.name_full = f"{o.name}#p{pi}"
             res.obligs.append(o)
